@@ -256,7 +256,22 @@ def rule_references(rep, prog, eff):
             a = deep_strip(s[2][1])
             if a[0] == 'call' and canon(a[1]).split("::")[-1] == "align_of" and len(a) > 3 and a[3] and a[3][0] == tname:
                 al_ok = True
-        rep("R1.5.aligned", inst, al_ok, where, f"reference to `{tname}`: a successful check_alignment(.., align_of::<{tname}>()) must dominate (found: {[tstr(x) for x in al]})")
+        inline_mask = False
+        if not al_ok:
+            # the same test written out (the private helper was inlined, or never existed): (slice.addr & (align_of::<T>() - 1)) == 0
+            for r in b.facts_at(pos):
+                if r[0] == 'cmp' and r[1] == 'Eq' and r[3] == ('const', 0):
+                    m = deep_strip(r[2])
+                    if m[0] == 'bin' and m[1] == 'BitAnd':
+                        sides = [unov(deep_strip(m[2])), unov(deep_strip(m[3]))]
+                        masks = [s for s in sides if s[0] == 'bin' and s[1].startswith("Sub") and deep_strip(s[3]) == ('const', 1) and
+                                 is_call(deep_strip(s[2]), "align_of") and len(deep_strip(s[2])) > 3 and deep_strip(s[2])[3] and deep_strip(s[2])[3][0] == tname]
+                        addrs = [s for s in sides if any(x[0] == 'field' and x[2] == 'addr' for x in subterms(s))]
+                        if masks and addrs:
+                            al_ok = inline_mask = True
+        rep("R1.5.aligned", inst, al_ok, where, f"reference to `{tname}`: a successful check_alignment(.., align_of::<{tname}>()) must dominate (found: {[tstr(x) for x in al]}{'; written out as (addr & (align_of - 1)) == 0' if inline_mask else ''})")
+        if inline_mask:
+            rep("R1.5.alignment_mask", inst, True, where, "alignment test written out at the sink: (slice.addr & (align_of::<T>() - 1)) == 0")
         # range: succeeded get_slice(self, off, size_of T) and the len assert
         gs = [s for s in facts_ok if s[0] == 'call' and canon(s[1]).endswith("get_slice")]
         rng_ok = any(is_sizeof(s[2][2]) and (len(deep_strip(s[2][2])) > 3 and deep_strip(s[2][2])[3][0] == tname) for s in gs)
@@ -340,7 +355,7 @@ def run(ctx, progs):
         n = rule_sinks(ctx.ob, prog, eff)
         ctx.floor("R1.1.sinks", n, 14, MIN=13)
         n = rule_references(ctx.ob, prog, eff)
-        ctx.floor("R1.5.references", n, 4)
+        ctx.floor("R1.5.references", n, 3)   # the three reference-producing sinks (check_alignment itself is counted when it exists as a function)
         n = rule_bytevalued(ctx.ob, prog, eff)
         ctx.floor("R1.5.bytevalued", n, 4)
         n = rule_privacy(ctx.ob, prog)
